@@ -71,6 +71,22 @@ func (g *StressGen) Build() string {
 			return "switch (1) { case " + chain + " { return 2; } } return 1;"
 		}
 		return "a = [1]; return a[" + chain + "];"
+	case "chains-nested-as-callee", "chains-nested-as-member", "chains-nested-in-hashkey":
+		// chains of 99000 operators (each within the limit for one chain) inside
+		// each other: every finished group is the left end of the next chain, the
+		// tree is n levels deep in all
+		k := n / 99000
+		if k < 2 {
+			k = 2
+		}
+		tree := rep("(", k) + "1" + rep(rep(" + 1", 99000)+")", k)
+		switch g.Shape {
+		case "chains-nested-as-member":
+			return "a = {}; x = a.(" + tree + "); return 1;"
+		case "chains-nested-in-hashkey":
+			return "x = { " + tree + " : 1, 2: 2 }; return 1;"
+		}
+		return "x = " + tree + "(1); return 1;"
 	case "paren":
 		return "return " + rep("(", n) + "1" + rep(")", n) + ";"
 	case "square":
@@ -179,7 +195,8 @@ var stressShapes = []string{"paren", "square", "brace", "minus", "bang", "sqrt",
 	"open-paren", "open-square", "open-brace", "open-if", "open-call", "close-only", "ternary-chain", "ternary-cond", "assign-chain",
 	"longident", "longstring", "longnumber", "longregexp", "prefix-mix", "recursion", "mutual-recursion", "recursion-in-loop", "recursion-void", "recursion-by-field", "fault-by-field",
 	"grown-array-string", "grown-hash-string", "grown-array-return", "grown-array-compare", "grown-array-in", "grown-hash-keys-return", "grown-array-print",
-	"chain-in-hashkey", "chain-in-hashvalue", "chain-as-callee", "chain-as-member", "chain-assigned-to", "chain-in-case", "chain-as-index"}
+	"chain-in-hashkey", "chain-in-hashvalue", "chain-as-callee", "chain-as-member", "chain-assigned-to", "chain-in-case", "chain-as-index",
+	"chains-nested-as-callee", "chains-nested-as-member", "chains-nested-in-hashkey"}
 
 // CrashCase is one no-crash case.
 type CrashCase struct {
@@ -681,7 +698,7 @@ func TestC08Stress(t *testing.T) {
 	_ = 0
 	deepQuick := map[string]bool{"comments": true, "paren": true, "minus": true, "bang": true, "open-paren": true, "prefix-mix": true, "elseif": true, "chain&&": true, "index": true, "call": true, "if": true,
 		"grown-array-string": true, "grown-hash-string": true, "grown-array-return": true, "grown-array-print": true,
-		"chain-in-hashkey": true, "chain-as-callee": true, "chain-as-member": true}
+		"chain-in-hashkey": true, "chain-as-callee": true, "chain-as-member": true, "chains-nested-as-callee": true, "chains-nested-as-member": true}
 	for _, shape := range stressShapes {
 		ss := sizes
 		if !thorough() && deepQuick[shape] {
@@ -701,6 +718,12 @@ func TestC08Stress(t *testing.T) {
 			}
 			if strings.HasPrefix(shape, "chain-in-hash") && n == 100000 {
 				g.N = 20000 // sorting the pairs of a hash literal prints them: quadratic in the chain length
+			}
+			if strings.HasPrefix(shape, "chains-nested") {
+				g.N = n
+				if n >= 2000000 {
+					g.N = 12000000 // 48 MB: a tree twelve million levels deep, if it is built
+				}
 			}
 			if strings.HasPrefix(shape, "chain-") && n >= 2000000 {
 				g.N = 6000000 // 24 MB of "+ 1": deep enough for a recursive walk to exhaust the stack
